@@ -609,10 +609,15 @@ class NestGen:
 					self.count('stmt:method-call')
 			elif allow_closure and depth == 0:
 				cname = self.names.var(scope_names)
-				p = self.names.var(scope_names)
 				cty = r.choice(['int', 'str'])
+				shadowable = [n for n, t in env if t == cty and n != 'self']
+				if shadowable and r.random() < 0.35:
+					p = r.choice(shadowable)   # the closure's parameter shadows a variable of the enclosing function
+					self.count('closure:param-shadows-outer')
+				else:
+					p = self.names.var(scope_names)
 				out.append(f'{pad}def {cname}({p}: {cty}) -> {cty}:')
-				inner_env = [*env, (p, cty)]
+				inner_env = [*[(n, t) for n, t in env if n != p], (p, cty)]
 				if r.random() < 0.5:
 					lv = self.names.var(scope_names)
 					out.append(f'{pad}\t{lv} = {self.expr(cty, inner_env, 0, me)}')
@@ -638,6 +643,12 @@ class NestGen:
 		scope_names: set[str] = {name}
 		ptypes = TYPES + ['list[int]', 'dict[str, int]'] + [c.qual for c in self.classes] + [e for e, _ in self.enums]
 		params = [(self.names.var(scope_names), r.choice(ptypes)) for _ in range(r.randint(0, 3))] if kind != 'property' else []
+		if kind != 'property' and self.module_vars and r.random() < 0.25:
+			mv = r.choice(self.module_vars)   # a parameter shadows a module-level variable (same type)
+			if mv[0] not in scope_names:
+				scope_names.add(mv[0])
+				params.append(mv)
+				self.count('param-shadows-module-var')
 		ret = r.choice(TYPES + ['None'] + [c.qual for c in self.classes][:1]) if kind != 'property' else r.choice(TYPES)
 		sig = FuncSig(name, params, ret, owner, kind)
 		ind = 1 if owner else 0
@@ -747,6 +758,13 @@ class NestGen:
 			lines.append(f"def {name}({', '.join(f'{n}: {t}' for n, t in params)}) -> None: ...")
 			lines.append('')
 			self.count('decl:procedure')
+		for _ in range(r.randint(0, 2)):
+			ty = r.choice(TYPES)
+			n = self.names.gvar()
+			lines.append(f'{n}: {ty} = {self.lit(ty)}')
+			self.module_vars.append((n, ty))
+			self.count('decl:module-var')
+		lines.append('')
 		for i in range(r.randint(1, 1 + self.size)):
 			base = r.choice(self.classes) if self.classes and r.random() < 0.5 else None
 			_, clines = self.gen_class(base)
